@@ -66,16 +66,18 @@ CLAIMS["C06"] = {
     "ref": "DESIGN.md section 7 C06",
 }
 CLAIMS["C07"] = {
-    "text": "Twelve Coq theorems (Props/C07.v) about the model of Decoder::domain_name: for EVERY message, window, offset and "
-            "pointer graph it terminates within its fixed fuel (never out of fuel, never a panic), examines at most 544 octets "
-            "per name, returns only names of <= 255 wire octets with labels of 1..=63 octets, follows at most 17 pairwise "
-            "distinct pointer targets; a name whose reference pointer chain is cyclic or needs more than 17 hops is always an "
-            "error; an accepted name is exactly the reference expansion (Spec/Names.v) of the octets. Since every name consumes "
-            ">= 1 octet of its window the whole-message work is <= 545*len (argument in DESIGN.md; the per-name bound is the "
-            "proved part). Tie: D cases over all pointer graphs of <= 5 nodes, chains 1..64, fans, mazes, with the hook's octet "
-            "counter compared EXACTLY with the model's cost and a budget that turns a loop into a PANIC line.",
-    "note": "Whole-message linear bound: per-name constant proved, the summation over names argued in DESIGN.md and checked by the oracle cost <= 560*len+2048. Wall-clock time and allocation are not modelled. " + NOTE_COMMON,
-    "technique": "Coq proof (termination measure, simulation against a reference expansion, periodicity of cyclic chains) + exact cost correspondence",
+    "text": "Eighteen Coq theorems (Props/C07.v) about the model of the decoder. Names: for EVERY message, window, offset and "
+            "pointer graph Decoder::domain_name terminates within its fixed fuel (never out of fuel, never a panic), examines at "
+            "most 544 octets (289 when it accepts), returns only names of <= 255 wire octets with labels of 1..=63 octets, follows "
+            "at most 17 pairwise distinct pointer targets; a name whose reference pointer chain is cyclic or needs more than 17 "
+            "hops is always an error; an accepted name is exactly the reference expansion (Spec/Names.v). Whole message: "
+            "C07_work_linear - the octet counter at the end of dec_Dns b is <= 290 * len b + 544 for every octet string (weight 1 "
+            "in the innermost windows, 289 inside RDATA, 290 at message level, by a compositional cost predicate over all readers "
+            "and all 46 record types); constants for the other entry points. Tie: D cases over all pointer graphs of <= 5 nodes, "
+            "chains 1..64, fans, mazes, names made over-long only through pointers, with the hook's octet counter compared EXACTLY "
+            "with the model's cost and a budget that turns a loop into a PANIC line; oracle cost <= 290*len+544.",
+    "note": "'Work' is the number of octets examined by Decoder::read/bytes (hook counter); wall-clock time and allocation (Vec::with_capacity(count)) are not modelled. " + NOTE_COMMON,
+    "technique": "Coq proof (termination measure, compositional cost predicate, simulation against a reference expansion, periodicity of cyclic chains) + exact cost correspondence",
     "ref": "DESIGN.md section 7 C07",
 }
 
